@@ -154,6 +154,14 @@ theorem concatenate_lower_axis (k ndim axis : Nat) (h : axis < ndim) :
   rw [if_neg (by push_cast; omega)]
   congr 1; push_cast; omega
 
+/-- known finding `matmul:inner-dimension-broadcast`, as a fact about the code model: `matmul` (multiply with
+broadcasting, then sum) accepts inner dimensions `1` vs `3`, which NumPy's matmul shape rule rejects; on aligned operands
+both give the same shape. -/
+theorem matmul_inner_dim_counterexample :
+    matmulShape [2, 1] [3, 4] = some [2, 4] ∧ npMatmulShape [2, 1] [3, 4] = none ∧
+    matmulShape [5, 2, 3] [3, 4] = npMatmulShape [5, 2, 3] [3, 4] ∧ matmulShape [3] [2, 3, 4] = npMatmulShape [3] [2, 3, 4] := by
+  decide
+
 -- the hypotheses of the theorems above are satisfiable / the statements are not vacuous
 example : broadcastShapes [[2, 1, 3], [4, 1], []] = some [2, 4, 3] := by decide
 example : broadcastShapes [[2, 3], [2]] = none := by decide
